@@ -135,7 +135,9 @@ def mutations(base):
                         ("unknown-event", "O~~", p, j))
             subs.append(("unknown-event", m[0] + "~" + m[2], p, j))
             # a declared code with the top bit of one byte set (no table holds bytes >= 0x80)
-            hb = k % 3
+            # (the value byte of the base model's burst and unordered-region categories is ignored by
+            # design - see C18's statement - so it is left alone there)
+            hb = k % 3 if m[:2] not in ("OB", "OU") else k % 2
             subs.append(("unknown-event", m[:hb] + chr(ord(m[hb]) | 0x80) + m[hb + 1:], p, j))
             for ws in SIZE_CHECKED.get(m, []):
                 subs.append(("payload-size", m, bytes(ws), False))
